@@ -66,6 +66,18 @@ CHECKS["C09"] = dict(
          "direct monitor on every answer set of real runs (random programs of all fragments, the shipped examples).",
     design="§6 C09", technique="Lean 4 proof (supportedness in stable models of the accumulated ground program) + runtime monitor on real answer sets")
 
+CHECKS["C04"] = dict(
+    text="Theorems (Lean 4): unshift_equiv — the head formula shifted by d steps by the code's until→next→shift recursion means, d "
+         "states later, what the formula means now, in every world of every THT interpretation, any nesting (termination is part of "
+         "the definition); unfold_cnf — unfold_formula is distribution into CNF; clauses_at_step combines them; shift_iff — "
+         "time-stratified shifting (moving off-time disjuncts into the body under default negation, as translate_clause does) "
+         "preserves stable models; neg_is_default / choice_reading.  PARTIAL: the end-to-end statement C04_statement is kept visible "
+         "and is validated, not proved: the composition with incremental grounding (domain rule ranges, head atoms that are facts, "
+         "several formulas per state) is exercised by the search against the brute-force THT equilibrium enumerator on the head "
+         "operator-pair grid, interaction programs and random programs.  Tie: representation equality of create_formula / "
+         "shift_formula / unfold_formula between implementation and model at shifts 0..3.",
+    design="§6 C04", technique="Lean 4 proof (THT equivalence of shifting/unfolding, stratified shifting lemma; partial end-to-end) + function-level correspondence")
+
 NOT_YET = {}
 
 def main():
